@@ -1,30 +1,170 @@
-//! syscall family (C17) — filled in later.
+//! syscall family (C17): harness side and generator side. The reference-model side lives in `model.rs`.
 use crate::dsl::*;
-use crate::harness::H;
+use crate::gen::{GenOps, Rng};
+use crate::harness::{interp, PlainParams, H};
+use crate::obs::{log, Ev};
 use bevy::prelude::*;
+use bevy_cobweb::prelude::*;
 
-pub fn cmd_syscall(_c: &mut Commands, _h: &mut H, _kind: SysKind, _key: u8, _input: u32, _u: u32) {}
-pub fn world_syscall(_world: &mut World, _kind: SysKind, _key: u8, _input: u32, _u: u32) {}
-pub fn spawn_sys(_world: &mut World, _k: u8, _key: u8) {}
-pub fn kill_sys(_world: &mut World, _k: u8) {}
+pub const NKEYS: u8 = 3;
+pub const ST_ONCE: u8 = 3;
+pub const ST_NAMED: u8 = 4;
+pub const ST_SPAWNED: u8 = 10;
+pub const ST_CMD: u8 = 20;
+pub const ST_CMD_ONCE: u8 = 23;
 
-// ---- reference model side ----
-use crate::model::{Checker, MRes, bail};
-
-#[derive(Default)]
-pub struct SysModel {}
-impl SysModel
+/// State a call through `kind` with function key `key` (or spawned slot `key`) uses.
+pub fn state_id(kind: SysKind, key: u8, cmd: bool) -> u8
 {
-    pub fn extra_entities_lo(&self) -> i64 { 0 }
-    pub fn extra_entities_hi(&self) -> i64 { 0 }
+    match kind
+    {
+        SysKind::Plain | SysKind::Validated => if cmd { ST_CMD + key } else { key },
+        SysKind::Once => if cmd { ST_CMD_ONCE } else { ST_ONCE },
+        SysKind::Named(n) | SysKind::NamedDirect(n) | SysKind::RegisterNamed(n) => ST_NAMED + n * NKEYS + key,
+        SysKind::Spawned => ST_SPAWNED + key,
+    }
 }
-pub fn model_cmd_syscall(_c: &mut Checker, _kind: SysKind, _key: u8, _input: u32, _u: u32) -> MRes<()> { bail("syscall family not modelled yet") }
-pub fn model_world_syscall(_c: &mut Checker, _kind: SysKind, _key: u8, _input: u32, _u: u32) -> MRes<()> { bail("syscall family not modelled yet") }
-pub fn model_spawn_sys(_c: &mut Checker, _k: u8, _key: u8) -> MRes<()> { bail("syscall family not modelled yet") }
-pub fn model_kill_sys(_c: &mut Checker, _k: u8) -> MRes<()> { bail("syscall family not modelled yet") }
+
+pub fn pack(state: u8, value: u32) -> u32 { ((state as u32) << 24) | (value & 0xFFFF) }
+
+fn callee_body<const K: u8>(input: u32, p: &mut PlainParams, n: &mut u32) -> u32
+{
+    *n += 1;
+    let state = (input >> 24) as u8;
+    let value = input & 0xFFFF;
+    p.h_mut().callee_seq += 1;
+    let seq = p.h_mut().callee_seq;
+    log(Ev::SysBody { key: K, n: *n, input });
+    let prog = p.h_mut().prog.clone();
+    let ops = prog.callee_script(K, *n);
+    interp(ops, CALLEE_BASE + state, seq, p);
+    log(Ev::SysBodyEnd { key: K, n: *n });
+    value * 1000 + *n
+}
+
+fn callee<const K: u8>(In(input): In<u32>, mut p: PlainParams, mut n: Local<u32>) -> u32 { callee_body::<K>(input, &mut p, &mut n) }
+fn callee_cmd<const K: u8>(In(input): In<u32>, mut p: PlainParams, mut n: Local<u32>) { callee_body::<K>(input, &mut p, &mut n); }
+
+fn sysname_of<S: 'static>(_: &S, name: u8) -> SysName { SysName::new::<S>(name) }
+
+macro_rules! by_key { ($key:expr, |$f:ident| $body:expr) => { match $key % NKEYS { 0 => { let $f = callee::<0>; $body } 1 => { let $f = callee::<1>; $body } _ => { let $f = callee::<2>; $body } } }; }
+macro_rules! by_key_cmd { ($key:expr, |$f:ident| $body:expr) => { match $key % NKEYS { 0 => { let $f = callee_cmd::<0>; $body } 1 => { let $f = callee_cmd::<1>; $body } _ => { let $f = callee_cmd::<2>; $body } } }; }
+
+pub fn world_syscall(world: &mut World, kind: SysKind, key: u8, value: u32, u: u32)
+{
+    let input = pack(state_id(kind, key, false), value);
+    let out: Option<u32> = match kind
+    {
+        SysKind::Plain => Some(by_key!(key, |f| world.syscall(input, f))),
+        SysKind::Validated => Some(by_key!(key, |f| world.syscall_with_validation(input, f, |_| {}))),
+        SysKind::Once => Some(by_key!(key, |f| world.syscall_once(input, f))),
+        SysKind::Named(n) => Some(by_key!(key, |f| named_syscall(world, n, input, f))),
+        SysKind::NamedDirect(n) => by_key!(key, |f| named_syscall_direct::<In<u32>, u32>(world, sysname_of(&f, n), input).ok()),
+        SysKind::RegisterNamed(n) => { by_key!(key, |f| register_named_system(world, sysname_of(&f, n), f)); Some(0) }
+        SysKind::Spawned =>
+        {
+            let id = world.resource::<H>().sys[key as usize % 4];
+            match id { Some(id) => spawned_syscall::<In<u32>, u32>(world, id, input).ok(), None => None }
+        }
+    };
+    log(Ev::SysRet { uid: u, out });
+}
+
+pub fn cmd_syscall(c: &mut Commands, h: &mut H, kind: SysKind, key: u8, value: u32, _u: u32)
+{
+    let input = pack(state_id(kind, key, true), value);
+    match kind
+    {
+        SysKind::Plain | SysKind::Validated => by_key_cmd!(key, |f| c.syscall(input, f)),
+        SysKind::Once => by_key_cmd!(key, |f| c.syscall_once(input, f)),
+        SysKind::Spawned => { if let Some(id) = h.sys[key as usize % 4] { c.spawned_syscall::<In<u32>>(id, pack(state_id(SysKind::Spawned, key, true), value)); } }
+        _ => {}
+    }
+}
+
+/// Spawned system slots 0,1 return `u32` (for direct calls); slots 2,3 return `()` (for `Commands::spawned_syscall`).
+pub fn spawn_sys(world: &mut World, k: u8, key: u8)
+{
+    let k = k as usize % 4;
+    if world.resource::<H>().sys[k].is_some() { return; }
+    let id = if k < 2 { by_key!(key, |f| spawn_system(world, f)) } else { by_key_cmd!(key, |f| spawn_system(world, f)) };
+    let mut h = world.resource_mut::<H>();
+    h.sys[k] = Some(id);
+    h.known.push(id.entity());
+}
+
+pub fn kill_sys(world: &mut World, k: u8)
+{
+    if let Some(id) = world.resource::<H>().sys[k as usize % 4] { world.despawn(id.entity()); }
+}
 
 // ---- generator side ----
-use crate::gen::{GenOps, Rng};
-pub fn gen_syscall(_r: &mut Rng) -> Option<WOp> { None }
-pub fn gen_cmd_syscall(_r: &mut Rng) -> Option<Op> { None }
-pub fn gen_callees(_g: &mut dyn GenOps) -> Vec<Vec<Vec<Op>>> { Vec::new() }
+
+fn gen_kind(r: &mut Rng, min_key: u8) -> Option<(SysKind, u8)>
+{
+    if min_key >= NKEYS { return None; }
+    let key = min_key + r.below((NKEYS - min_key) as u64) as u8;
+    let name = r.below(2) as u8;
+    Some(match r.below(12)
+    {
+        0 | 1 | 2 => (SysKind::Plain, key),
+        3 => (SysKind::Validated, key),
+        4 => (SysKind::Once, key),
+        5 | 6 => (SysKind::Named(name), key),
+        7 => (SysKind::NamedDirect(name), key),
+        8 => (SysKind::RegisterNamed(name), key),
+        _ => (SysKind::Spawned, r.below(2) as u8),
+    })
+}
+
+pub fn gen_syscall(r: &mut Rng) -> Option<WOp>
+{
+    match r.below(10)
+    {
+        0 => Some(WOp::SpawnSys(r.below(4) as u8, r.below(NKEYS as u64) as u8)),
+        1 => Some(WOp::KillSys(r.below(4) as u8)),
+        _ => { let (k, key) = gen_kind(r, 0)?; Some(WOp::Syscall(k, key, r.below(50) as u32)) }
+    }
+}
+
+pub fn gen_cmd_syscall(r: &mut Rng) -> Option<Op>
+{
+    let key = r.below(NKEYS as u64) as u8;
+    Some(match r.below(6)
+    {
+        0 | 1 | 2 => Op::CmdSyscall(SysKind::Plain, key, r.below(50) as u32),
+        3 => Op::CmdSyscall(SysKind::Once, key, r.below(50) as u32),
+        _ => Op::CmdSyscall(SysKind::Spawned, 2 + r.below(2) as u8, r.below(50) as u32),
+    })
+}
+
+/// Callee scripts: ordinary ops plus nested calls that only go to higher keys (no same-state recursion, see A3), and the
+/// one recursion the property does speak about: a spawned system calling itself (must be refused).
+pub fn gen_callees(g: &mut dyn GenOps) -> Vec<Vec<Vec<Op>>>
+{
+    let mut out = Vec::new();
+    for key in 0..NKEYS
+    {
+        let ncalls = g.rng().range(1, 3);
+        let mut scripts = Vec::new();
+        for _ in 0..ncalls
+        {
+            let n = g.rng().range(0, 3);
+            let mut ops = g.plain_ops(n);
+            // strip ops that would recurse into arbitrary syscalls
+            ops.retain(|o| !matches!(o, Op::CmdSyscall(..) | Op::Direct(WOp::Syscall(..)) | Op::Direct(WOp::SpawnSys(..)) | Op::Direct(WOp::KillSys(..)) | Op::Now(_)));
+            if g.rng().chance(50)
+            {
+                if let Some((k, k2)) = gen_kind(g.rng(), key + 1)
+                {
+                    if !matches!(k, SysKind::Spawned) { let v = g.rng().below(50) as u32; ops.push(Op::Direct(WOp::Syscall(k, k2, v))); }
+                }
+            }
+            if g.rng().chance(25) { let k = g.rng().below(2) as u8; let v = g.rng().below(50) as u32; ops.push(Op::Direct(WOp::Syscall(SysKind::Spawned, k, v))); }
+            scripts.push(ops);
+        }
+        scripts.push(Vec::new());
+        out.push(scripts);
+    }
+    out
+}
